@@ -49,6 +49,11 @@ def Xo.take : Nat → Xo → List W
   | 0, _ => []
   | n + 1, x => let r := x.next; r.1 :: Xo.take n r.2
 
+/-- the generator state after `n` draws -/
+def Xo.iter : Nat → Xo → Xo
+  | 0, x => x
+  | n + 1, x => Xo.iter n x.next.2
+
 /-- rand 0.9 `StandardUniform` for `f64`: the top 53 bits of one `next_u64`, scaled by `2^-53`
     (`scale * (value >> 11) as f64`). The numerator: -/
 def unif53 (w : W) : Nat := (w >>> 11).toNat
